@@ -76,6 +76,15 @@ def subharnesses(tier):
                                 'error': 'zkerror'}[crash]),
                     {'kind': 'trace', 'batch': bs, 'sched': sched,
                      'crash': crash}))
+    # instances that have a record under /finished (a stale terminal event
+    # from a node that lost the placement) and are still scheduled
+    for bs in (1, 2, 4):
+        for sched in (1, 2, 5, 7):
+            for fin in (7, sched):
+                subs.append(('trace-batch%d-sched%d-fin%d-run' % (bs, sched,
+                                                                  fin),
+                             {'kind': 'trace', 'batch': bs, 'sched': sched,
+                              'fin': fin, 'crash': False}))
     for bs in (1, 2, 3):
         for crash in (False, True):
             subs.append(('finished-batch%d-%s' % (bs, 'crash' if crash
@@ -135,6 +144,11 @@ def _trace(S, spec):
     scheduled = [i for i in range(3) if spec['sched'] & (1 << i)]
     for i in scheduled:
         tree.seed('/scheduled/' + INSTS[i], b'{}')
+    for i in range(3):
+        if spec.get('fin', 0) & (1 << i):
+            tree.seed('/finished/' + INSTS[i], b'{"state": "finished"}')
+            if i in scheduled:
+                S.reach('scheduled_and_finished')
     pre = {}
     for (i, ts, rest) in EVENTS:
         name = '%s,%s,%s' % (INSTS[i], ts, rest)
@@ -309,5 +323,5 @@ META = {
         'trace._zk.cleanup', 'trace.server.zk.cleanup_server_trace',
         'zkutils.create / ensure_deleted / with_retry'],
     'reach_required': ['archived', 'snapshot_written', 'event_archived',
-                       'crashed', 'pruned'],
+                       'crashed', 'pruned', 'scheduled_and_finished'],
 }
